@@ -34,6 +34,7 @@ fn dispatch(req: &Req) -> R<String> {
 		"bern" => distr::bern(req),
 		"std" => distr::std(req),
 		"enum" => enumr::enumerate(req),
+		"enum32" => enumr::enum32(req),
 		"stat" => stat::stat(req),
 		"statd" => stat::statd(req),
 		"chacha" => chacha::chacha(req),
